@@ -164,6 +164,12 @@ impl Iterator for NeighborsIter {
                 continue;
             }
 
+            // An edge of this run whose other endpoint was deleted in the same run
+            // (same transaction) must not dangle.
+            if self.pending_tombstoned_nodes.contains(&edge.dst) {
+                continue;
+            }
+
             return Some(edge);
         }
     }
@@ -327,6 +333,12 @@ impl Iterator for IncomingNeighborsIter {
             }
 
             if edge_blocked_incoming(edge, &self.blocked_nodes, &self.blocked_edges) {
+                continue;
+            }
+
+            // An edge of this run whose source was deleted in the same run (same
+            // transaction) must not dangle.
+            if self.pending_tombstoned_nodes.contains(&edge.src) {
                 continue;
             }
 
